@@ -65,6 +65,15 @@ var c10Trees = []c10Tree{
 			g.Op(")")
 		})
 	}},
+	{"bad-huge", false, func() *jen.Statement {
+		// more than 1 MiB of source, invalid only at the very end
+		return jen.Const().DefsFunc(func(g *jen.Group) {
+			for i := 0; i < 12000; i++ {
+				g.Id(fmt.Sprintf("K%d", i)).Op("=").Lit(strings.Repeat("x", 100))
+			}
+			g.Op(")").Id("oops")
+		})
+	}},
 	{"bad-call", false, func() *jen.Statement { return jen.Var().Id("x").Op("=").Id("f").Call(jen.Op(";")).Op("(") }},
 	{"bad-string", false, func() *jen.Statement { return jen.Var().Id("x").Op("=").Op(`"unterminated`) }},
 }
@@ -397,6 +406,53 @@ type failFirst struct{}
 
 func (failFirst) Write(p []byte) (int, error) { return 0, errors.New("writer closed") }
 
+// c10SaveSequence: one File saved to one path several times while something else rewrites the
+// path in between; after every successful Save the file holds exactly the rendered output.
+func c10SaveSequence() []string {
+	var problems []string
+	dir, err := os.MkdirTemp("", "verif-c10s-")
+	if err != nil {
+		return nil
+	}
+	defer os.RemoveAll(dir)
+	target := filepath.Join(dir, "out.go")
+	mk := func(v int) *jen.File {
+		f := jen.NewFile("p")
+		f.Var().Id("x").Op("=").Lit(v)
+		return f
+	}
+	a := mk(41)
+	var want bytes.Buffer
+	a.Render(&want)
+	check := func(step string) {
+		b, err := os.ReadFile(target)
+		if err != nil || !bytes.Equal(b, want.Bytes()) {
+			problems = append(problems, fmt.Sprintf("%s: Save returned nil but the file holds %q, want %q", step, jh.Short(string(b), 80), jh.Short(want.String(), 80)))
+		}
+	}
+	steps := []struct {
+		name  string
+		write func()
+	}{
+		{"first Save", func() {}},
+		{"Save again, nothing changed", func() {}},
+		{"Save after another File of the same size was saved to the path", func() { mk(42).Save(target) }},
+		{"Save after a same-size edit of the file", func() { os.WriteFile(target, bytes.Replace(want.Bytes(), []byte("41"), []byte("99"), 1), 0o644) }},
+		{"Save after the file was truncated", func() { os.WriteFile(target, nil, 0o644) }},
+		{"Save after the file grew", func() { os.WriteFile(target, append(append([]byte{}, want.Bytes()...), "// tail\n"...), 0o644) }},
+		{"Save after the file was removed", func() { os.Remove(target) }},
+	}
+	for _, st := range steps {
+		st.write()
+		if err := a.Save(target); err != nil {
+			problems = append(problems, st.name+": Save failed: "+err.Error())
+			continue
+		}
+		check(st.name)
+	}
+	return problems
+}
+
 func runC10(r *ev.Recorder) {
 	r.SetDeadline(10 * 60 * 1e9)
 	r.Rule = fmt.Sprintf("writer faults: %d entry points (File.Render with formatting on/off, Statement.Render, Statement.RenderWithFile, Group.Render, Group.RenderWithFile) x %d trees (6 valid, 6 invalid, of different sizes) x EVERY answer sequence of the writer "+
@@ -472,6 +528,11 @@ func runC10(r *ev.Recorder) {
 			}
 		}
 	}
+	for _, msg := range c10SaveSequence() {
+		r.Violate(ev.Violation{Signature: "c10:save-sequence", What: "one File saved repeatedly to one path: " + msg, Case: ev.JSON(c10Case{Kind: "savesequence", Desc: msg}), Detail: msg})
+	}
+	r.Eval(7)
+	r.Distinct("save-sequence")
 	for ti := range c10Trees {
 		for gi := range c10Targets {
 			for _, nf := range []bool{false, true} {
@@ -501,6 +562,8 @@ func replayC10(raw json.RawMessage) (bool, string) {
 	var msg string
 	if c.Kind == "save" {
 		msg = c10Save(c.Tree, c.Target, c.NoFormat)
+	} else if c.Kind == "savesequence" {
+		msg = strings.Join(c10SaveSequence(), "; ")
 	} else if c.Kind == "sequence" {
 		msg = c10Sequence(c.Entry == 2, c.Vector)
 	} else {
